@@ -100,4 +100,15 @@ CLAIMS["C18"] = {
     "technique": "idiom + symbolic normal forms of the conversion formulas, constant evaluation of the power table (AST)",
 }
 
+CLAIMS["C08"] = {
+    "text": "Decides the orientation and algebra of the interval operations: merge uses the running maximum of stops, pads by exactly `distance` before and removes the same amount after a "
+            "strict next-start > running-stop test under one guard, and builds results from run starts / run ends; every interval sort orders by (chromosome, start, stop) (lexsort keys "
+            "read in reverse); intersect is strict, overlap counting clamps at 0, the mask merges sorted intervals, drops empty ones and defaults to False, pileup sums indicator rows; clip and "
+            "extend_to_size clamp starts at 0 from below and stops at the contig size from above with '+' keeping the start; Jaccard and Forbes equal a/(a+b+c) and a*N/((a+b)(a+c)) as rational "
+            "functions of the contingency cells whose layout is read from the code. Values are touched only through comparisons, clamps and selectors, so these finite orientation facts "
+            "are what the per-base definitions require of the code.",
+    "note": _NOTE + "Not decided: equality with per-base coverage for the run-length algebra delegated to npstructures; exhaustive small-contig enumeration is a different technique.",
+    "technique": "operand-role orientation checks + linear/rational normal forms + guard dominance (AST, CFG)",
+}
+
 NOT_APPLICABLE = {}
